@@ -48,9 +48,16 @@ func c11Gen(rng *RNG) (pages []c11Page, kind string) {
 	if inverted {
 		height = 512
 	}
-	hdrKind := rng.Intn(6)  // 0 none 1 same text 2 odd/even 3 jittered position 4 varying number in text 5 only on some pages
-	ftrKind := rng.Intn(7)  // 0 none, 1..5 page number styles, 6 fixed text footer
+	hdrKind := rng.Intn(6) // 0 none 1 same text 2 odd/even 3 jittered position 4 varying number in text 5 only on some pages
+	ftrKind := rng.Intn(7) // 0 none, 1..5 page number styles, 6 fixed text footer
 	styles := []string{"%d", "Page %d", "- %d -", "%d of 9", "p. %d", "%d/9"}
+	if rng.Chance(1, 3) {
+		// the same styles in another letter case
+		styles = []string{"%d", "PAGE %d", "- %d -", "%d OF 9", "P. %d", "%d/9"}
+		if rng.Bool() {
+			styles = []string{"%d", "page %d", "- %d -", "%d Of 9", "Pg. %d", "%d/9"}
+		}
+	}
 	kind = fmt.Sprintf("h%d-f%d", hdrKind, ftrKind)
 	if inverted {
 		kind += "-inv"
@@ -410,20 +417,40 @@ func init() {
 			}
 		}
 		// ---- through the public API on generated PDFs, with page subsets
-		nPDF := 12
+		nPDF := 40
 		if thorough {
 			nPDF = 300
 		}
 		for it := 0; it < nPDF; it++ {
 			np := rng.Range(2, 6)
 			var pages [][]pdfLine
+			// the running title and the page numbers may be missing on some pages (a cover, a section opener);
+			// a page without the title may carry the same words as an ordinary body line
+			partial := rng.Chance(1, 2)
+			numStyle := []string{"Page %d", "PAGE %d", "page %d", "%d", "- %d -", "P. %d", "Pg %d", "pg. %d", "%d of 9", "PAGE %d OF 9", "%d/9"}[rng.Intn(11)]
+			hasTitle := make([]bool, np)
+			bodyCopies := make([]bool, np)
+			titled := 0
+			for pi := 0; pi < np; pi++ {
+				hasTitle[pi] = !partial || !(pi == 0 || (pi == np-1 && rng.Bool()) || rng.Chance(1, 5))
+				if hasTitle[pi] {
+					titled++
+				}
+			}
 			for pi := 0; pi < np; pi++ {
 				var ls []pdfLine
-				ls = append(ls, pdfLine{72, 760, 12, "Running Title of the Book", 0})
+				if hasTitle[pi] {
+					ls = append(ls, pdfLine{72, 760, 12, "Running Title of the Book", 0})
+				} else if rng.Bool() {
+					bodyCopies[pi] = true
+					ls = append(ls, pdfLine{72, 690, 12, "Running Title of the Book", 0})
+				}
 				for j := 0; j < rng.Range(2, 6); j++ {
 					ls = append(ls, pdfLine{72, 650 - 40*j, 12, fmt.Sprintf("Body line %d of page %d with words", j, pi+1), 0})
 				}
-				ls = append(ls, pdfLine{300, 30, 10, fmt.Sprintf("Page %d", pi+1), 0})
+				if hasTitle[pi] || !partial {
+					ls = append(ls, pdfLine{300, 30, 10, fmt.Sprintf(numStyle, pi+1), 0})
+				}
 				pages = append(pages, ls)
 			}
 			path := tmpFile(r, ".pdf", mkPDFLines(pages, 612, 792))
@@ -434,28 +461,71 @@ func init() {
 				}
 			}
 			base := tabula.Open(path)
+			selPages := sel
 			if len(sel) > 0 {
 				base = base.Pages(sel...)
+			} else {
+				for p := 1; p <= np; p++ {
+					selPages = append(selPages, p)
+				}
 			}
 			plain, _, e1 := base.Text()
 			filt, _, e2 := base.ExcludeHeadersAndFooters().Text()
 			base.Close()
 			ok := e1 == nil && e2 == nil
-			// every line of the filtered text occurs in the unfiltered text; body lines all survive; the running title and page numbers are gone
+			why := ""
+			// every line of the filtered text occurs in the unfiltered text; body lines all survive; a title that
+			// runs on every page, and running page numbers, are gone
 			if ok {
 				for _, ln := range strings.Split(filt, "\n") {
 					if strings.TrimSpace(ln) != "" && !strings.Contains(plain, strings.TrimSpace(ln)) {
-						ok = false
+						ok, why = false, "a line that the unfiltered text does not have: "+ln
 					}
 				}
 				if strings.Count(filt, "Body line") != strings.Count(plain, "Body line") {
-					ok = false
+					ok, why = false, "a body line is missing"
 				}
-				if strings.Contains(filt, "Running Title") || strings.Contains(filt, "Page 1") || strings.Contains(filt, "Page 2") {
-					ok = false
+				copies := 0
+				for _, p := range selPages {
+					if bodyCopies[p-1] {
+						copies++
+					}
+				}
+				if strings.Count(filt, "Running Title") < copies {
+					ok, why = false, "a body line with the words of the running title is missing"
+				}
+				if !partial {
+					for _, ln := range strings.Split(filt, "\n") {
+						t := strings.TrimSpace(ln)
+						if t == "Running Title of the Book" {
+							ok, why = false, "the running title is still there"
+						}
+						for _, p := range selPages {
+							if t == fmt.Sprintf(numStyle, p) {
+								ok, why = false, "a page number is still there: "+t
+							}
+						}
+					}
 				}
 			}
-			r.Check(ok, "api-exclusion", fmt.Sprintf("ExcludeHeadersAndFooters().Text() on pages %v: err %v %v", sel, e1, e2), Bs(path))
+			// what exclusion does to a page does not depend on which pages are asked for together with it
+			if ok {
+				var parts []string
+				for _, p := range selPages {
+					one, _, err := tabula.Open(path).Pages(p).ExcludeHeadersAndFooters().Text()
+					if err != nil {
+						ok, why = false, fmt.Sprintf("page %d alone: %v", p, err)
+					}
+					if one != "" {
+						parts = append(parts, one)
+					}
+				}
+				if ok && strings.Join(parts, "\n\n") != filt {
+					ok, why = false, fmt.Sprintf("the pages together give %q, one by one %q", filt, strings.Join(parts, "\n\n"))
+				}
+			}
+			_ = titled
+			r.Check(ok, "api-exclusion", fmt.Sprintf("ExcludeHeadersAndFooters().Text() on pages %v (number style %q, title on %v): %s; err %v %v", sel, numStyle, hasTitle, why, e1, e2), Bs(path))
 			os.Remove(path)
 		}
 	}
